@@ -166,6 +166,23 @@ theorem received_iff {tr : Trace} {h : Nat} {s : Svc} {t : Int} :
     received tr h s t = true ↔ ∃ e ∈ dlvs tr, e.h = h ∧ e.t ≤ t ∧ pos s e.items = true := by
   simp [received, and_assoc]
 
+theorem received_mono {tr : Trace} {h : Nat} {s : Svc} {t t' : Int} (ht : t ≤ t') (hr : received tr h s t = true) :
+    received tr h s t' = true := by
+  obtain ⟨e, he, h1, h2, h3⟩ := received_iff.mp hr
+  exact received_iff.mpr ⟨e, he, h1, by omega, h3⟩
+
+/-- what a host has received only grows: a question whose known answers are among them stays one -/
+theorem asks_mono {tr : Trace} {h : Nat} {t t' : Int} {ty : Nat} {qu : Bool} {items : List Item} (ht : t ≤ t')
+    (ha : asks tr h t ty qu items = true) : asks tr h t' ty qu items = true := by
+  simp only [asks, List.any_eq_true] at ha ⊢
+  obtain ⟨it, hit, hq⟩ := ha
+  refine ⟨it, hit, ?_⟩
+  cases it with
+  | ptr s ttl full => simp at hq
+  | query ty' known qu' =>
+    simp only [Bool.and_eq_true, List.all_eq_true] at hq ⊢
+    exact ⟨hq.1, fun k hk => received_mono ht (hq.2 k hk)⟩
+
 /-- if `h` never processed a PTR(`s`) with TTL > 0, a question it asks or is suppressed by does not list `s` -/
 theorem asks_of {tr : Trace} {h : Nat} {t : Int} {ty : Nat} {qu : Bool} {items : List Item} {s : Svc}
     (hno : ∀ e ∈ dlvs tr, e.h = h → pos s e.items = false) (ha : asks tr h t ty qu items = true) :
@@ -230,7 +247,7 @@ theorem k4_of {tr : Trace} {endT : Int} (h : K4 Cfg.paper tr endT = true) {e : D
     (hend : e.t + 1200 ≤ endT) {ty : Nat} {known : List Svc} {qu : Bool} (hq : Item.query ty known qu ∈ e.items)
     {s : Svc} {t1 : Int} (hreg : (t1, s) ∈ regs tr) (hown : s.owner = e.h) (hty : s.ty = ty) (hk : known.contains s = false)
     (ht1 : t1 + 350 ≤ e.t - 1000) (hun : ∀ u ∈ unregs tr, u.2 = s → u.1 ≤ t1) :
-    ∃ sd ∈ sends tr, sd.h = e.h ∧ e.t - 1000 ≤ sd.t ∧ sd.t ≤ e.t + 1200 ∧ posFull s sd.items = true
+    ∃ sd ∈ sends tr, sd.h = e.h ∧ e.t - 1000 ≤ sd.t ∧ sd.t ≤ e.t + 1200 ∧ pos s sd.items = true
       ∧ (sd.dst = none ∨ (qu = true ∧ sd.dst = some e.src)) := by
   have h1 := List.all_eq_true.mp h e he
   simp only [Bool.or_eq_true, Bool.not_eq_true', dec_false] at h1
@@ -294,8 +311,8 @@ theorem refreshOpp_query {tr : Trace} {endT : Int} (h7 : K7 Cfg.paper tr endT = 
 theorem k3b_of {tr : Trace} {endT : Int} (h : K3b Cfg.paper tr endT = true) {tb : Int} {b : Br} (hb : (tb, b) ∈ browses tr)
     (hopen : neverClosed tr b.host = true) {x : DlvE} (hx : x ∈ dlvs tr) (hxh : x.h = b.host) {s : Svc} {ttl : Nat} {full : Bool}
     (hp : ptrOf s x.items = some (ttl, full)) (httl : 0 < ttl) (hty : s.ty = b.ty) :
-    k3bAt Cfg.paper tr endT b.host b.ty tb x.t (effTtl Cfg.paper ttl / 1000) s false = true
-    ∧ k3bAt Cfg.paper tr endT b.host b.ty tb x.t (effTtl Cfg.paper ttl / 1000) s true = true := by
+    k3bAt Cfg.paper tr endT b.host b.ty tb x (effTtl Cfg.paper ttl / 1000) s false = true
+    ∧ k3bAt Cfg.paper tr endT b.host b.ty tb x (effTtl Cfg.paper ttl / 1000) s true = true := by
   have h1 := List.all_eq_true.mp h (tb, b) hb
   simp only [hopen, Bool.not_true, Bool.false_or] at h1
   have h2 := List.all_eq_true.mp h1 x hx
@@ -305,11 +322,11 @@ theorem k3b_of {tr : Trace} {endT : Int} (h : K3b Cfg.paper tr endT = true) {tb 
   simp only [hty, hpos, beq_self_eq_true, Bool.and_true, Bool.not_true, Bool.false_or, hp, Bool.and_eq_true] at h3
   exact h3
 
-theorem k3bAt_of {tr : Trace} {endT : Int} {h ty : Nat} {tb t e : Int} {s : Svc} {second : Bool}
-    (hk : k3bAt Cfg.paper tr endT h ty tb t e s second = true)
-    (hend : (refreshWindow Cfg.paper t e tb second).2 ≤ endT)
-    (hno : ∀ y ∈ dlvs tr, y.h = h → t < y.t → ptrOf s y.items = none) :
-    refreshOpp tr h ty s (refreshWindow Cfg.paper t e tb second).1 (refreshWindow Cfg.paper t e tb second).2 = true := by
+theorem k3bAt_of {tr : Trace} {endT : Int} {h ty : Nat} {tb : Int} {x : DlvE} {e : Int} {s : Svc} {second : Bool}
+    (hk : k3bAt Cfg.paper tr endT h ty tb x e s second = true)
+    (hend : (refreshWindow Cfg.paper x.t e tb second).2 ≤ endT)
+    (hlast : lastPtrIs tr h s (refreshWindow Cfg.paper x.t e tb second).2 x = true) :
+    refreshOpp tr h ty s (refreshWindow Cfg.paper x.t e tb second).1 (refreshWindow Cfg.paper x.t e tb second).2 = true := by
   unfold k3bAt at hk
   rw [Bool.or_eq_true] at hk
   rcases hk with hk | hk
@@ -317,24 +334,75 @@ theorem k3bAt_of {tr : Trace} {endT : Int} {h ty : Nat} {tb t e : Int} {s : Svc}
     simp only [Bool.not_eq_true', Bool.and_eq_false_iff, dec_false] at hk
     rcases hk with hk | hk
     · exact hk hend
-    · rw [← Bool.not_eq_true] at hk
-      apply hk
-      unfold noPtrBetween
-      rw [List.all_eq_true]
-      intro y hy
-      by_cases hyh : y.h = h
-      · by_cases hlt : t < y.t
-        · simp [hno y hy hyh hlt]
-        · simp [hlt]
-      · simp [hyh]
+    · rw [hlast] at hk; cases hk
   · exact hk
 
-theorem refreshWindow_early {t e tb : Int} (h : tb + 120 + 14000 + 10000 ≤ t + 750 * e) (second : Bool) :
+theorem dlvs_append (a b : Trace) : dlvs (a ++ b) = dlvs a ++ dlvs b := by simp [dlvs, List.filterMap_append]
+
+/-- the last element a filter keeps: everything after it in the list fails the test -/
+theorem getLast_filter_split {α : Type} (p : α → Bool) : ∀ (l : List α) (x : α), (l.filter p).getLast? = some x →
+    ∃ l1 l2, l = l1 ++ x :: l2 ∧ p x = true ∧ ∀ y ∈ l2, p y = false
+  | [], x, h => by simp at h
+  | a :: r, x, h => by
+    cases hr : r.filter p with
+    | nil =>
+      by_cases hp : p a = true
+      · rw [List.filter_cons_of_pos hp, hr] at h
+        simp only [List.getLast?_singleton, Option.some.injEq] at h
+        subst h
+        refine ⟨[], r, rfl, hp, fun y hy => ?_⟩
+        have := List.filter_eq_nil_iff.mp hr y hy
+        simpa using this
+      · rw [List.filter_cons_of_neg hp, hr] at h
+        simp at h
+    | cons b l' =>
+      have h' : (r.filter p).getLast? = some x := by
+        by_cases hp : p a = true
+        · rw [List.filter_cons_of_pos hp, hr, List.getLast?_cons_cons] at h
+          rw [hr]; exact h
+        · rw [List.filter_cons_of_neg hp] at h
+          exact h
+      obtain ⟨l1, l2, rfl, hx, hl2⟩ := getLast_filter_split p r x h'
+      exact ⟨a :: l1, l2, rfl, hx, hl2⟩
+
+/-- reading `lastPtrIs`: the deliveries split at `x`, and no PTR(`s`) is processed by `h` after `x` (in trace order) up to `t2` -/
+theorem lastPtrIs_split {tr : Trace} {h : Nat} {s : Svc} {t2 : Int} {x : DlvE} (hl : lastPtrIs tr h s t2 x = true) :
+    ∃ l1 l2, dlvs tr = l1 ++ x :: l2 ∧ x.h = h ∧ x.t ≤ t2 ∧
+      ∀ y ∈ l2, y.h = h → (ptrOf s y.items).isSome = true → t2 < y.t := by
+  unfold lastPtrIs ptrDlvs at hl
+  obtain ⟨l1, l2, h1, h2, h3⟩ := getLast_filter_split _ _ x (by simpa using hl)
+  simp only [Bool.and_eq_true, beq_iff_eq, dec_true] at h2
+  refine ⟨l1, l2, h1, h2.1.1, h2.2, ?_⟩
+  intro y hy hyh hyp
+  have := h3 y hy
+  simp only [hyh, beq_self_eq_true, hyp, Bool.and_self, Bool.true_and, dec_false] at this
+  omega
+
+/-- building `lastPtrIs`: `x` is the last event of the trace at which `h` processes a PTR(`s`) -/
+theorem lastPtrIs_of_last {pre post : Trace} {x : DlvE} {h : Nat} {s : Svc} {t2 : Int}
+    (hxh : x.h = h) (hp : (ptrOf s x.items).isSome = true) (hpost : ∀ y ∈ post, heldEv h s y = none) (ht : x.t ≤ t2) :
+    lastPtrIs (pre ++ ⟨x.t, .dlv x.d x.src x.h x.mc x.items⟩ :: post) h s t2 x = true := by
+  have hcons : dlvs (⟨x.t, .dlv x.d x.src x.h x.mc x.items⟩ :: post) = x :: dlvs post := by simp [dlvs]
+  have hnil : (dlvs post).filter (fun e => e.h == h && (ptrOf s e.items).isSome && decide (e.t ≤ t2)) = [] := by
+    rw [List.filter_eq_nil_iff]
+    intro y hy
+    have h1 := hpost _ (mem_dlvs.mp hy)
+    by_cases hyh : y.h = h
+    · rw [heldEv_dlv hyh] at h1
+      cases hpy : ptrOf s y.items with
+      | none => simp
+      | some v => rw [hpy] at h1; simp at h1
+    · simp [hyh]
+  unfold lastPtrIs ptrDlvs
+  rw [dlvs_append, hcons, List.filter_append, List.filter_cons_of_pos (by simp [hxh, hp, ht]), hnil]
+  simp
+
+theorem refreshWindow_early {t e tb : Int} (h : tb + 120 + 14000 + 10000 + 999 ≤ t + 750 * e) (second : Bool) :
     refreshWindow Cfg.paper t e tb second
-      = (t + (if second then 850 else 750) * e - 10000 - 999, t + (if second then 850 else 750) * e + 30000) := by
+      = (t + (if second then 850 else 750) * e - 10000 - 2 * 999, t + (if second then 850 else 750) * e + 30000) := by
   simp [refreshWindow, h]
 
-theorem refreshWindow_late {t e tb : Int} (h : ¬ tb + 120 + 14000 + 10000 ≤ t + 750 * e) (second : Bool) :
+theorem refreshWindow_late {t e tb : Int} (h : ¬ tb + 120 + 14000 + 10000 + 999 ≤ t + 750 * e) (second : Bool) :
     refreshWindow Cfg.paper t e tb second
       = (tb + 20 + (if second then 14000 else 5000) - 999, tb + 120 + (if second then 14000 else 5000)) := by
   cases second <;> simp [refreshWindow, h]
